@@ -49,7 +49,7 @@ type vrec struct {
 // chainEvent changes a validator record before operation BeforeOp.
 type chainEvent struct {
 	BeforeOp int    `json:"before_op"`
-	Key      int    `json:"key"`
+	Key      int    `json:"key"`  // account index
 	Kind     string `json:"kind"` // slash | exit | activate | appear | withdrawn
 	Delay    int    `json:"delay"`
 }
@@ -90,7 +90,7 @@ type lookup struct {
 	Rel     bool          `json:"rel"`  // epoch is relative to the current epoch of the real chaintime
 	Epoch   int           `json:"epoch"`
 	IdxMask int           `json:"idxmask,omitempty"` // byindex: which registry indices are asked for (bit n-th key; top bit = an index nobody has)
-	Key     int           `json:"key,omitempty"`     // bypubkey
+	Key     int           `json:"key,omitempty"`     // bypubkey: account index (== len(Accts): a key nobody has)
 }
 
 type plan struct {
@@ -101,7 +101,7 @@ type plan struct {
 	Specs       []string       `json:"specs"`
 	Wallets     []string       `json:"wallets"`
 	Accts       []acct         `json:"accts"`
-	Registry    []vrec         `json:"registry"` // by key
+	Registry    []vrec         `json:"registry"` // by account (index in Accts)
 	Events      []chainEvent   `json:"events,omitempty"`
 	Changes     []signerChange `json:"changes,omitempty"`
 	Ops         []op           `json:"ops"`
@@ -109,7 +109,7 @@ type plan struct {
 	End         time.Duration  `json:"end"`
 }
 
-var walletPool = []string{"Wallet 1", "Wallet 2", "My Wallet 1"}
+var walletPool = []string{"Wallet 1", "Wallet 2", "My Wallet 1", "Wallet 10"}
 var namePool = []string{"Account 1", "Account 10", "Account 2", "My Account 1", "Account 1 old", "Validator 7", "account 1"}
 var indexPool = []uint64{7, 3, 1000, 42, 5, 260, 19, 88, 2, 61}
 
@@ -213,11 +213,15 @@ func genPlan(scenario string) func(p *simrt.Tape) any {
 		pl.StartOffset = []time.Duration{0, time.Second, 3 * time.Second, epochDur - time.Second}[p.Pick(4)]
 		pl.Concurrency = []int{1, 2, 4}[p.Pick(3)]
 		nw := p.Range(1, 3)
-		pl.Wallets = append(pl.Wallets, walletPool[:nw]...)
-		if nw == 2 && p.Bool() {
-			pl.Wallets[1] = walletPool[2]
+		rest := append([]string{}, walletPool...)
+		for i := 0; i < nw; i++ {
+			j := p.Pick(len(rest))
+			if i == 0 && p.Pct(60) {
+				j = 0
+			}
+			pl.Wallets = append(pl.Wallets, rest[j])
+			rest = append(rest[:j], rest[j+1:]...)
 		}
-		key := 0
 		for _, w := range pl.Wallets {
 			n := p.Range(1, 4)
 			if len(pl.Accts)+n > 8 {
@@ -228,12 +232,12 @@ func genPlan(scenario string) func(p *simrt.Tape) any {
 				first = 0
 			}
 			for i := 0; i < n; i++ {
-				a := acct{Wallet: w, Name: namePool[(first+i)%len(namePool)], Key: key, Present: p.Pct(85)}
+				ni := (first + i) % len(namePool)
+				a := acct{Wallet: w, Name: namePool[ni], Key: keyFor(w, ni), Present: p.Pct(85)}
 				if scenario == "dirk" {
 					a.Dist = p.Pct(25)
 				}
 				pl.Accts = append(pl.Accts, a)
-				key++
 			}
 		}
 		rot := p.Pick(len(indexPool))
@@ -295,9 +299,9 @@ func genPlan(scenario string) func(p *simrt.Tape) any {
 			pl.Events = append(pl.Events, chainEvent{BeforeOp: p.Range(1, nops), Key: p.Pick(len(pl.Accts)),
 				Kind: []string{"slash", "exit", "activate", "appear", "withdrawn"}[p.Pick(5)], Delay: p.Range(0, 2)})
 		}
-		for i, n := 0, p.Range(0, 2); i < n; i++ {
+		for i, n := 0, p.Range(0, 3); i < n; i++ {
 			a := p.Pick(len(pl.Accts))
-			pl.Changes = append(pl.Changes, signerChange{BeforeOp: p.Range(1, nops), Acct: a, Present: !pl.Accts[a].Present || p.Pct(30)})
+			pl.Changes = append(pl.Changes, signerChange{BeforeOp: p.Range(1, nops), Acct: a, Present: !pl.Accts[a].Present || p.Pct(20)})
 		}
 		// clients
 		kinds := []string{"validating", "validating", "validatingidx", "sync", "syncidx", "bypubkey"}
@@ -307,7 +311,11 @@ func genPlan(scenario string) func(p *simrt.Tape) any {
 			for i, n := 0, p.Range(3, 6); i < n; i++ {
 				l := lookup{Kind: kinds[p.Pick(len(kinds))]}
 				o := pl.Ops[p.Pick(len(pl.Ops))]
-				switch p.Pick(6) {
+				var wl time.Duration // when the slowest wallet answers
+				for _, w := range o.Wallets {
+					wl = max(wl, w.Lat)
+				}
+				switch p.Pick(8) {
 				case 0:
 					l.At = o.At
 				case 1:
@@ -315,7 +323,11 @@ func genPlan(scenario string) func(p *simrt.Tape) any {
 				case 2:
 					l.At = o.At + o.Val.Lat/2 + 5*time.Millisecond
 				case 3:
-					l.At = o.At + o.Val.Lat + time.Second + 1
+					l.At = o.At + wl // the account list is replaced at this instant
+				case 4:
+					l.At = o.At + wl + o.Val.Lat // the validators are replaced at this instant
+				case 5:
+					l.At = o.At + wl + o.Val.Lat + time.Second + 1
 				default:
 					l.At = o.At + time.Duration(p.Range(1500, 3900))*time.Millisecond
 				}
@@ -339,6 +351,20 @@ func genPlan(scenario string) func(p *simrt.Tape) any {
 		return pl
 	}
 }
+
+// keyFor: the validator key of an account is a function of its wallet and name
+// (the wallets on disk are created once per process).
+func keyFor(wallet string, nameIdx int) int {
+	for wi, w := range walletPool {
+		if w == wallet {
+			return wi*10 + nameIdx
+		}
+	}
+	panic("unknown wallet")
+}
+
+// nobodyKey is a validator key no account has.
+const nobodyKey = 999
 
 func (a acct) full() string { return a.Wallet + "/" + a.Name }
 
